@@ -519,6 +519,10 @@ def gen_target(rng):
     host = None
     if rng.random() < 0.1:
         host = rng.choice(["proxy.example", "h.example:8080"])
+        if rng.random() < 0.35:
+            # absolute-form without a path (RFC 7230 5.3.2): the path of the request is empty
+            path = ""
+            target = ("?" + query if query is not None else "")
         target = "http://" + host + target
     return target, path, query, host
 
@@ -1248,12 +1252,36 @@ def c02(ctx):
                     c = raw(nd, sb, ctail=tail, stail=tail) if f["side"] == "c" else raw(cb, nd, ctail=tail, stail=tail)
                     c["_what"] = (f["kind"], f["side"], f["off"], v, tail)
                     cases.append(c)
+    # very many small DATA frames on one stream (the cost of a frame must not grow with what the stream already holds),
+    # below and beyond the per-stream cap, with and without HEADERS, either half
+    hdr = h2_frame(1, 4, 1, b"\x82\x84\x86\x41\x01h")
+    for nfr, sz in ([(8000, 1), (6000, 10), (3000, 100)] if quick else [(8000, 1), (60000, 1), (6000, 10), (20000, 10), (3000, 100), (12000, 100)]):
+        for with_headers in (True, False):
+            body = h2_frame(4, 0, 0, b"") + (hdr if with_headers else b"") + h2_frame(0, 0, 1, b"z" * sz) * nfr + h2_frame(0, 1, 1, b"")
+            for half in ("c", "s"):
+                c = raw(H2_PREFACE + body, h2_frame(4, 0, 0, b""), ctail=0, stail=0) if half == "c" else raw(H2_PREFACE + h2_frame(4, 0, 0, b""), body, ctail=0, stail=0)
+                c["_what"] = ("h2-many-data-frames", half, nfr, sz, with_headers)
+                cases.append(c)
+    # HTTP/1 in very many small units at two sizes (N and 4N), judged by the ratio: a chunked body of one-byte chunks,
+    # pipelined minimal exchanges, header fields
+    ok200 = b"HTTP/1.1 200 OK\r\nContent-Length: 0\r\n\r\n"
+    for nsmall in ((1500, 6000) if quick else (10000, 40000)):
+        chunked = b"POST /u HTTP/1.1\r\nHost: h\r\nTransfer-Encoding: chunked\r\n\r\n" + b"1\r\nx\r\n" * nsmall + b"0\r\n\r\n"
+        shapes = [("h1-many-chunks", chunked, ok200),
+                  ("h1-many-exchanges", b"GET /p HTTP/1.1\r\nHost: h\r\n\r\n" * nsmall, ok200 * nsmall),
+                  ("h1-many-header-fields", b"GET /h HTTP/1.1\r\nHost: h\r\n" + b"".join(b"X-%d: v\r\n" % (k % 50) for k in range(nsmall)) + b"\r\n", ok200)]
+        for shape, cb, sb in shapes:
+            c = raw(cb, sb, ctail=0, stail=0)
+            c["nostage"] = True        # the dissector alone: the later stages (and the harness' KFL evaluations) cost 2 MB per entry
+            c["_what"] = ("scaling", shape, nsmall)
+            cases.append(c)
     for i, c in enumerate(cases):
         c["id"] = i
     res = run_cases(ctx, [{k: v for k, v in c.items() if k != "_what"} for c in cases], mode="cost", batch=60,
                     limit_kb=6 * 1024 * 1024, timeout=600)
     nviol = 0
     worst = {"alloc_over_n": 0, "cpu_ms": 0}
+    scaling = {}
     for c in cases:
         r = res[c["id"]]
         ctx.count_case(("http-c02", c["c"], c["s"], c["ctail"]), c["_what"][0] != "unchanged", "http-" + c["_what"][0])
@@ -1268,8 +1296,12 @@ def c02(ctx):
             n = r["n"]
             worst["alloc_over_n"] = max(worst["alloc_over_n"], r["alloc"])
             worst["cpu_ms"] = max(worst["cpu_ms"], r["cpu_ns"] / 1e6)
+            if c["_what"][0] == "scaling":
+                scaling.setdefault(c["_what"][1], {})[c["_what"][2]] = (r["alloc"], r["cpu_ns"] // 1000, c)
             if r["c"]["outcome"] in ("hang", "panic") or r["s"]["outcome"] in ("hang", "panic") or r.get("timeout"):
                 why = "outcome %s / %s" % (r["c"]["outcome"], r["s"]["outcome"])
+            elif c["_what"][0] == "scaling":
+                pass
             elif r["alloc"] > 64 * n + 96 * (1 << 20):
                 why = "allocated %d bytes for %d input bytes" % (r["alloc"], n)
             elif r["cpu_ns"] > 2000 * n + 500000000:
@@ -1278,6 +1310,22 @@ def c02(ctx):
             nviol += 1
             ctx.violation({"kind": "http-c02", "field": c["_what"], "case": {k: v for k, v in c.items() if k != "_what"},
                            "failure": why, "how": "vh-http cost (case on stdin) in a child process with RLIMIT_AS 6 GiB"})
+    ratios = {}
+    for shape, by_size in sorted(scaling.items()):
+        if len(by_size) != 2:
+            continue
+        (n1, a), (n2, b) = sorted(by_size.items())
+        ratios[shape] = {"units": [n1, n2], "alloc": [a[0], b[0]], "cpu_us": [a[1], b[1]]}
+        why = None
+        if b[0] > 6 * a[0] + (64 << 20):
+            why = "%d units allocate %d bytes, %d units %d bytes: the cost of a unit grows with the units before it" % (n1, a[0], n2, b[0])
+        elif b[1] > 8 * a[1] + 1500000:
+            why = "%d units take %d us of CPU, %d units %d us: the cost of a unit grows with the units before it" % (n1, a[1], n2, b[1])
+        if why and nviol < 3:
+            nviol += 1
+            ctx.violation({"kind": "http-c02", "field": list(b[2]["_what"]), "case": {k: v for k, v in b[2].items() if k != "_what"},
+                           "failure": why, "how": "vh-http cost (case on stdin) in a child process with RLIMIT_AS 6 GiB"})
+    ctx.cov.setdefault("http_c02", {})["scaling"] = ratios
     ctx.cov.setdefault("http_c02", {}).update({"max_alloc_bytes": worst["alloc_over_n"], "max_cpu_ms": round(worst["cpu_ms"], 2)})
     ctx.sample({"kind": "http-c02", "cases": len(cases), "max_alloc_bytes": worst["alloc_over_n"], "max_cpu_ms": round(worst["cpu_ms"], 2)})
     return nviol
